@@ -53,6 +53,27 @@ CHECKS = {
  "C32": dict(engine=C, technique="bounded-exhaustive enumeration of miros-produced traces x perturbation catalogue through the real stripped()", level="model_checking",
    text="Traces produced by a real queued chart under a scripted clock (6 chart names incl. None/digits/blank/non-ascii, 1-4 records, 3 clock scripts) are perturbed with a catalogue (other timestamps, blank lines, spaces/tabs around lines, CRLF, missing outer newlines: must compare equal; renamed state/signal/chart, dropped/duplicated/swapped records: must differ) and single lines are compared with the same line inside a block.",
    note="Names contain no brackets or newlines.", ref="5, 6/C32"),
+ "C10": dict(engine=B, technique="stateless deviation-bounded exploration (preemptions + early-timer deviations) of the real timer threads on a virtual clock",
+   text="Real post_fifo/post_lifo timed sources (periods 0.5/1.0, times 0-3, deferred or not, fifo/lifo, and two sources at once) run on the real ActiveObject with the scheduler owning time; every schedule with <= 1-2 deviations (a preemption at a source line of the timer/queue code, or the clock advancing although a thread could run) is executed up to a 2 s virtual horizon; the virtual instants, count and queue end (append/appendleft) of every post are compared with the arithmetic schedule p*k.",
+   note="Time is virtual: counts and instants relative to sleep(); drift/latency only as 'late, never early, never closer than the period'. times=0 checked up to the horizon.", ref="4.4, 6/C10"),
+ "C11": dict(engine=B, technique="stateless deviation-bounded exploration of cancel_event/cancel_events racing the real timer threads on a virtual clock",
+   text="2-3 real timed sources over signals {A, A, B}; cancel by id (returned object, equal copy rebuilt from text) and by name (Event(number), Event('name'), built event, dumps/loads round trip); the cancelling call is placed by the explorer at every scheduling point of the window (bound 0-2 incl. early timers). Oracle: no append by a cancelled source after the cancel call returned (scheduler step indices), the uncancelled sources keep the C10 schedule, exactly the cancelled entries leave the tracked list.",
+   note="'after the call returned' = scheduler step index; virtual time; bounds per parameter set 0-2.", ref="6/C11"),
+ "C12": dict(engine=B, technique="stateless deviation-bounded exploration of stop() racing the object's thread, its timers, a bystander object and the fabric",
+   text="An active object with 0-2 pending events and 0-2 timed sources, a second active object and the running fabric as bystanders; stop() from another thread is placed at every point of the window (bound 1-2) and stop() from inside a handler. Oracle: when the outside stop() returned the thread is finished, no later run-to-completion step, all source flags cleared and nothing tracked, no later timer append; handler stop ends the thread after the current step; the bystander still dispatches a fresh post and a fresh publication and both fabric threads live.",
+   note="Bounds: deviation bound 1-2 per parameter set, line-level points in the queue/timer/stop/fabric code.", ref="6/C12"),
+ "C25": dict(engine=B, technique="explicit-state BFS over registry operation sequences vs dict+counter, plus stateless preemption-bounded exploration of concurrent registrations with an invariant at every scheduling point",
+   text="(a) BFS over all sequences (depth <= 5) of append / attribute access / Event(name) / Event(number) / name_for_signal / is_inner_signal over colliding, odd and inner names on the real registry vs a dict and a counter; (b) 2-3 threads x 1-2 registry operations with names forced to collide, every schedule with <= 2 preemptions at line (quick) / instruction (thorough) granularity of miros.event; invariant at every scheduling point: a name's number never changes, numbers distinct positive; final bijection and matching (name, number) in every event.",
+   note="Names that shadow OrderedDict attributes are excluded from attribute access. The registry is process-global: each path removes what it added.", ref="6/C25"),
+ "C27": dict(engine=B, technique="stateless preemption-bounded exploration of real threads executing generated statements on a thread-safe attribute, lock stand-in controlled",
+   text="2-3 threads x 1-2 statements from {x = o.a, o.a = v, o.a += 1, o.a -= 1, o.a += 3} (the statements live in a generated source file because the descriptor classifies the caller's source line) run against the real descriptor with its RLock replaced by the controlled stand-in; every schedule with <= 2 preemptions (3 for one harness, thorough) at every lock operation and every line (quick) / shared-access instruction (thorough) of the descriptor. Oracle: no exception, no deadlock, final value and values read are those of some serial order of the statements.",
+   note="'o.a = o.a + 1' is a read plus a write, not atomic by contract: excluded.", ref="6/C27"),
+ "C30": dict(engine=B, technique="stateless preemption-bounded exploration of concurrent first requests to each SingletonDecorator",
+   text="For each of the five decorated classes (and a fresh decorator per class) the instance is reset and 2-3 threads make the first request at once; every schedule with <= 2 preemptions at line (quick) / instruction (thorough) granularity of SingletonDecorator.__call__ and the constructors. Oracle: all callers got the same object and it is the one later calls return; no exception.",
+   note="Signal()/ReturnStatus() are first requested at import time in a real process: the check exercises the decorator's guarantee with fresh decorators of those classes.", ref="6/C30"),
+ "C31": dict(engine=B, technique="stateless deviation-bounded exploration of the rejected third timed post vs the new timer thread on a virtual clock",
+   text="An ActiveObject subclass with room for two timed sources; the third timed post (deferred or not, fifo/lifo, one-shot/periodic) must raise ActiveObjectOutOfPostedEventResources, its event must never be appended, the two tracked sources keep the C10 schedule; every schedule of the caller vs the timer threads with <= 1 (quick) / 2 (thorough) deviations.",
+   note="Capacity reduced through the subclass attribute QUEUE_SIZE = 2.", ref="6/C31"),
 }
 NOT_YET = "check not built yet in this round (planned, see DESIGN.md section 6)"
 
